@@ -203,6 +203,18 @@ impl RawPeer {
         if r.id != self.id { return Err(format!("response-id:{}:{}", r.id, self.id)); }
         Ok(r)
     }
+    /// send a request without waiting for its response; returns the request id
+    fn post(&mut self, path: &str, body: Vec<u8>) -> Result<u64, String> {
+        self.id += 1;
+        let f = frame(self.id, path, &body);
+        match &mut self.raw { Raw::Tcp(t) => t.send(&f).map_err(|e| e.to_string())?, Raw::Ws(w) => w.send(&f)? }
+        Ok(self.id)
+    }
+    /// the next response frame, whichever request it answers
+    fn take(&mut self) -> Result<Resp, String> {
+        let f = match &mut self.raw { Raw::Tcp(t) => t.recv().map_err(|e| e.to_string())?, Raw::Ws(w) => w.recv(T_WAIT)? };
+        parse_resp(&f)
+    }
     fn open(&mut self, c: &Case) -> Result<u64, String> {
         let r = self.call("/_svs/open", beve::to_vec(&OpenReq { resource: resource(c) }).map_err(|e| e.to_string())?)?;
         if r.ec != 0 { return Err(format!("open-ec:{}", r.ec)); }
@@ -422,6 +434,226 @@ fn run_dup(data: Vec<u8>, n: u64) -> Result<String, String> {
     Ok(format!("dupa={ra} dupb={rb}"))
 }
 
+// ---- harness-only case kinds: the same producers and pullers, driven differently (several
+// consumers at once, a cancel while a `next` is parked, a puller whose decoder stops early)
+type Gate = Arc<(Mutex<bool>, std::sync::Condvar)>;
+fn gate_new() -> Gate { Arc::new((Mutex::new(false), std::sync::Condvar::new())) }
+fn gate_wait(g: &Gate) {
+    let (m, cv) = &**g;
+    let mut open = m.lock().unwrap_or_else(|e| e.into_inner());
+    let t0 = std::time::Instant::now();
+    while !*open && t0.elapsed() < T_WAIT { open = cv.wait_timeout(open, Duration::from_millis(50)).unwrap_or_else(|e| e.into_inner()).0; }
+}
+/// opens the gate when dropped: no producer stays behind on an early return
+struct GateOpener(Gate);
+impl GateOpener { fn open(&self) { let (m, cv) = &*self.0; *m.lock().unwrap_or_else(|e| e.into_inner()) = true; cv.notify_all(); } }
+impl Drop for GateOpener { fn drop(&mut self) { self.open(); } }
+
+/// a connection attempt repeated a few times (other checks churn through the loopback ports)
+fn retry<T, E: ToString>(mut f: impl FnMut() -> Result<T, E>) -> Result<T, String> {
+    let mut last = String::new();
+    for k in 0..6u64 { match f() { Ok(x) => return Ok(x), Err(e) => last = e.to_string() } std::thread::sleep(Duration::from_millis(100 * (k + 1))); }
+    Err(format!("connect:{}", clean(last)))
+}
+fn ws_client(addr: std::net::SocketAddr) -> Result<WebSocketClient, String> {
+    let url = format!("ws://{addr}/repe");
+    retry(|| net::runtime().block_on(async { match tokio::time::timeout(T_WAIT, WebSocketClient::connect(&url)).await { Ok(r) => r.map_err(|e| e.to_string()), Err(_) => Err("timeout".to_string()) } }))
+}
+fn async_client(addr: std::net::SocketAddr) -> Result<AsyncClient, String> {
+    retry(|| net::runtime().block_on(async { match tokio::time::timeout(T_WAIT, AsyncClient::connect(addr)).await { Ok(r) => r.map_err(|e| e.to_string()), Err(_) => Err("timeout".to_string()) } }))
+}
+
+// conc=K: K consumers, each on its own connection, pull K DIFFERENT resources of one server at the
+// same moment (a barrier before every round); every pull is an ordinary pull of its own resource
+fn run_conc(f: &HashMap<String, String>) -> Result<String, String> {
+    let g = |k: &str| f.get(k).and_then(|s| ph(s));
+    let (Some(k), Some(rounds), Some(pull), Some(n), Some(d), Some(z), Some(kind), Some(len)) = (g("conc"), g("rounds"), g("pull"), g("n"), g("d"), g("z"), g("kind"), g("len")) else { return Err("badcase:conc-parse".into()) };
+    let data = unhex(f.get("data").ok_or("badcase:conc-parse")?);
+    let (k, len) = (k as usize, len as usize);
+    if k == 0 || k > 16 || rounds == 0 || rounds > 4096 || n == 0 || pull > 2 || !(3..=4).contains(&kind) || data.len() != k * len { return Err("badcase:conc-range".into()); }
+    let sv = servers((kind, 0, n, d, z != 0))?;
+    let barrier = Arc::new(std::sync::Barrier::new(k));
+    let handles: Vec<_> = (0..k).map(|j| {
+        let mine = data[j * len..(j + 1) * len].to_vec();
+        let (barrier, sv) = (barrier.clone(), sv.clone());
+        std::thread::spawn(move || -> (u64, Vec<String>) {
+            let res = format!("b:{}:-:-:0:err", hex(&mine));
+            let want = format!("ok:{}", hex(&mine));
+            // blocking and async consumers keep their connection; a WebSocket consumer connects anew
+            // before each round (see high_level: a reused one delays the open by ~40 ms)
+            let cl = if pull == 0 { Some(retry(|| Client::connect(sv.tcp))) } else { None };
+            let acl = if pull == 1 { Some(async_client(sv.tcp)) } else { None };
+            let (mut bad, mut seen) = (0u64, Vec::<String>::new());
+            for _ in 0..rounds {
+                let wcl = if pull == 2 { Some(ws_client(sv.ws)) } else { None };
+                barrier.wait();
+                let r = match guard(std::panic::AssertUnwindSafe(|| match pull {
+                    0 => match cl.as_ref().unwrap() { Ok(cl) => hl(Some(repe::pull_to_vec(cl, &res).map_err(|e| e.to_string()))), Err(e) => format!("err:{e}") },
+                    1 => match acl.as_ref().unwrap() { Err(e) => format!("err:{e}"), Ok(cl) => net::runtime().block_on(async {
+                        match tokio::time::timeout(T_WAIT, repe::pull_to_vec_async(cl, &res)).await { Err(_) => hl(None), Ok(r) => hl(Some(r.map_err(|e| e.to_string()))) } }) },
+                    _ => match wcl.as_ref().unwrap() { Err(e) => format!("err:{e}"), Ok(cl) => net::runtime().block_on(async {
+                        match tokio::time::timeout(T_WAIT, repe::pull_to_vec_async(cl, &res)).await { Err(_) => hl(None), Ok(r) => hl(Some(r.map_err(|e| e.to_string()))) } }) },
+                })) { Ok(r) => r, Err(()) => "err:panic".to_string() };
+                if r != want { bad += 1; }
+                if !seen.contains(&r) && (seen.len() < 4 || r == want) { seen.push(r); }
+            }
+            (bad, seen)
+        })
+    }).collect();
+    let mut out = Vec::new(); let mut bad = 0u64;
+    for (j, h) in handles.into_iter().enumerate() {
+        let (b, seen) = h.join().map_err(|_| "conc-join".to_string())?;
+        bad += b;
+        out.push(format!("r{j}={}", seen.join("|")));
+    }
+    Ok(format!("bad={} {}", hx(bad), out.join(" ")))
+}
+
+// park=1: a `cancel` (request form, acknowledged) arrives while an earlier `next` of the same stream
+// is parked on a producer that waits at a gate after `g` bytes; then the gate opens.  TCP: the cancel
+// comes from a second connection; WebSocket: from the same one (`next` runs off the reader)
+fn run_park(c: &Case, g: usize) -> Result<String, String> {
+    if g > c.data.len() || c.kind != 4 || c.z || c.f != "-" || c.w != "-" { return Err("badcase:park".into()); }
+    let gate = gate_new();
+    let opener = GateOpener(gate.clone());
+    let (pg, payload) = (gate.clone(), Arc::new(c.data.clone()));
+    let router = Router::new().with_writer_stream(BodyFormat::RawBinary, move |_resource: &str| {
+        let (gate, payload) = (pg.clone(), payload.clone());
+        Some(move |w: &mut dyn Write| -> io::Result<()> {
+            w.write_all(&payload[..g])?; w.flush()?;
+            gate_wait(&gate);
+            w.write_all(&payload[g..])
+        })
+    }, opts(c.n, c.d, false));
+    // the chunks the producer emits before the gate: all but the last are delivered at once, the
+    // `next` after them has to wait for the lookahead
+    let emitted = g / c.n as usize;
+    let npre = emitted.saturating_sub(1);
+    let mut pre = Vec::new();
+    let (r1, later) = if c.pull == 2 {
+        let addr = net::start_ws(repe::WebSocketServer::new(router));
+        let mut p = RawPeer { raw: Raw::Ws(retry(|| RawWs::connect(addr))?), id: 100 };
+        let sid = p.open(c)?;
+        for _ in 0..npre { pre.push(p.next(sid)?); }
+        let idn = p.post("/_svs/next", beve::to_vec(&NextReq { stream_id: sid }).map_err(|e| e.to_string())?)?;
+        std::thread::sleep(Duration::from_millis(300));   // the `next` is parked in the session
+        let idc = p.post("/_svs/cancel", beve::to_vec(&CancelReq { stream_id: sid, reason: "harness".into() }).map_err(|e| e.to_string())?)?;
+        let mut r1 = None;
+        loop {
+            let r = p.take()?;
+            if r.id == idc { if r.ec != 0 { return Err(format!("cancel-ec:{}", r.ec)); } break; }
+            if r.id != idn || r1.is_some() { return Err(format!("response-id:{}", r.id)); }
+            r1 = Some(rs(&r)?);
+        }
+        opener.open();
+        let r1 = match r1 { Some(r) => r, None => { let r = p.take()?; if r.id != idn { return Err(format!("response-id:{}", r.id)); } rs(&r)? } };
+        let mut later = Vec::new();
+        for _ in 0..3 { later.push(p.next(sid)?); }
+        (r1, later)
+    } else {
+        let addr = net::start_tcp(router);
+        let mut a = RawPeer { raw: Raw::Tcp(retry(|| RawTcp::connect(addr))?), id: 100 };
+        let mut b = RawPeer { raw: Raw::Tcp(retry(|| RawTcp::connect(addr))?), id: 500 };
+        let sid = a.open(c)?;
+        for _ in 0..npre { pre.push(a.next(sid)?); }
+        let ta = std::thread::spawn(move || { let r = a.next(sid); (a, r) });
+        std::thread::sleep(Duration::from_millis(300));   // A's `next` is parked in the session
+        b.cancel(sid)?;
+        opener.open();
+        let (mut a, r1) = ta.join().map_err(|_| "join-a".to_string())?;
+        let r1 = r1?;
+        let mut later = Vec::new();
+        for _ in 0..3 { later.push(a.next(sid)?); }
+        later.push(b.next(sid)?);
+        (r1, later)
+    };
+    Ok(format!("pre={} parked={} later={}", if pre.is_empty() { "-".into() } else { pre.join("|") }, r1, later.join("|")))
+}
+
+// early=<mode>: a puller whose decoder is done long before the stream ends (1: the wrong element
+// type, rejected at the header; 2: a consumer that reads a 10-byte prefix; 3: a consumer that fails
+// without reading).  The puller has returned, so the stream is released: raw `next` requests over the
+// same connection (a fresh server: the stream has id 1) must be errors
+fn probe_fmt(r: Result<repe::Message, repe::RepeError>) -> Result<String, String> {
+    match r {
+        Ok(m) if m.header.ec == 0 => Ok(format!("c{}.{}", (m.query.first().copied() == Some(1)) as u8, hex(&m.body))),
+        Ok(m) => Ok(format!("e.{}", hx(m.header.ec as u64))),
+        Err(repe::RepeError::ServerError { code, .. }) => Ok(format!("e.{}", hx(code as u32 as u64))),
+        Err(e) => Err(format!("probe:{}", clean(e.to_string()))),
+    }
+}
+fn outcome<T>(r: &Result<T, repe::RepeError>) -> String { match r { Ok(_) => "ok".into(), Err(e) => format!("err:{}", clean(e.to_string())) } }
+fn bail() -> repe::RepeError { repe::RepeError::Io(io::Error::other("the consumer gives up")) }
+const EARLY_PROBES: u64 = 3;
+
+fn run_early(c: &Case, mode: u64) -> Result<String, String> {
+    use repe::value_stream::ROUTE_NEXT;
+    if c.kind <= 2 && value_bytes(c.kind, c.el, c.vm as usize, c.vs) != c.data { return Err("badcase:data-is-not-the-value".into()); }
+    if !(1..=3).contains(&mode) || c.f != "-" { return Err("badcase:early".into()); }
+    let router = build_router(c.kind, c.el, c.n, c.d, c.z);
+    let res = resource(c);
+    let (kind, el) = (c.kind, c.el);
+    let want = c.data.len().min(10);
+    let (qf, bf) = (repe::QueryFormat::JsonPointer as u16, BodyFormat::Beve as u16);
+    let nb = |id: u64| beve::to_vec(&NextReq { stream_id: id }).unwrap();
+    async fn early_async<C: repe::AsyncSvsClient>(cl: &C, res: &str, kind: u64, el: u64, mode: u64, want: usize) -> (String, String) {
+        let fut = async {
+            match mode {
+                1 => (match (kind, el) {
+                    (1, 1) => outcome(&repe::pull_typed_slice_async::<i32, _>(cl, res).await),
+                    (1, _) => outcome(&repe::pull_typed_slice_async::<f64, _>(cl, res).await),
+                    _ => outcome(&repe::pull_typed_slice_async::<i32, _>(cl, res).await),
+                }, "-".to_string()),
+                2 => { let r = repe::pull_consume_async(cl, res, move |mut r: Box<dyn Read>| { let mut h = vec![0u8; want]; r.read_exact(&mut h)?; Ok(h) }).await;
+                       (outcome(&r), r.map(|h| hex(&h)).unwrap_or_else(|_| "-".into())) }
+                _ => (outcome(&repe::pull_consume_async(cl, res, |_r: Box<dyn Read>| Err::<(), _>(bail())).await), "-".to_string()),
+            }
+        };
+        match tokio::time::timeout(T_WAIT, fut).await { Ok(x) => x, Err(_) => ("timeout".into(), "-".into()) }
+    }
+    let (got, pre, probes) = match c.pull {
+        0 => {
+            let addr = net::start_tcp(router);
+            let cl = retry(|| Client::connect(addr))?;
+            let (got, pre) = match mode {
+                1 => (match (kind, el) {
+                    (1, 1) => outcome(&repe::pull_typed_slice::<i32>(&cl, &res)),
+                    (1, _) => outcome(&repe::pull_typed_slice::<f64>(&cl, &res)),
+                    _ => outcome(&repe::pull_typed_slice::<i32>(&cl, &res)),
+                }, "-".to_string()),
+                2 => { let r = repe::pull_consume(&cl, &res, |r: &mut dyn Read| { let mut h = vec![0u8; want]; r.read_exact(&mut h)?; Ok(h) });
+                       (outcome(&r), r.map(|h| hex(&h)).unwrap_or_else(|_| "-".into())) }
+                _ => (outcome(&repe::pull_consume(&cl, &res, |_r: &mut dyn Read| Err::<(), _>(bail()))), "-".to_string()),
+            };
+            let mut probes = Vec::new();
+            for id in 1..=EARLY_PROBES { probes.push(probe_fmt(cl.call_with_formats_and_timeout(ROUTE_NEXT, qf, Some(&nb(id)), bf, T_WAIT))?); }
+            (got, pre, probes)
+        }
+        1 => {
+            let addr = net::start_tcp(router);
+            let cl = async_client(addr)?;
+            net::runtime().block_on(async {
+                let (got, pre) = early_async(&cl, &res, kind, el, mode, want).await;
+                let mut probes = Vec::new();
+                for id in 1..=EARLY_PROBES { probes.push(probe_fmt(cl.call_with_formats_and_timeout(ROUTE_NEXT, qf, Some(&nb(id)), bf, T_WAIT).await)?); }
+                Ok::<_, String>((got, pre, probes))
+            })?
+        }
+        _ => {
+            let addr = net::start_ws(repe::WebSocketServer::new(router));
+            let cl = ws_client(addr)?;
+            net::runtime().block_on(async {
+                let (got, pre) = early_async(&cl, &res, kind, el, mode, want).await;
+                let mut probes = Vec::new();
+                for id in 1..=EARLY_PROBES { probes.push(probe_fmt(cl.call_with_formats_and_timeout(ROUTE_NEXT, qf, Some(&nb(id)), bf, T_WAIT).await)?); }
+                Ok::<_, String>((got, pre, probes))
+            })?
+        }
+    };
+    if got == "timeout" { return Err("puller-timeout".into()); }
+    Ok(format!("got={} prefix={} probes={}", got, pre, probes.join("|")))
+}
+
 fn run_case(line: &str) -> String {
     let f = fields(line);
     if f.get("dup").map(|d| d == "1").unwrap_or(false) {
@@ -429,12 +661,23 @@ fn run_case(line: &str) -> String {
         if n == 0 || data.len() as u64 > n { return "crash=badcase:dup".into(); }
         return match guard(move || run_dup(data, n)) { Ok(Ok(o)) => o, Ok(Err(e)) => format!("crash={}", clean(e)), Err(()) => "crash=panic".into() };
     }
+    if f.contains_key("conc") {
+        let f2 = f.clone();
+        return match guard(move || run_conc(&f2)) { Ok(Ok(o)) => o, Ok(Err(e)) => format!("crash={}", clean(e)), Err(()) => "crash=panic".into() };
+    }
     let parsed = (|| -> Option<Case> {
         let g = |k: &str| ph(f.get(k)?);
         Some(Case { kind: g("kind")?, el: g("el")?, pull: g("pull")?, n: g("n")?, d: g("d")?, z: g("z")? != 0, data: unhex(f.get("data")?), w: f.get("w")?.clone(), f: f.get("f")?.clone(), fk: f.get("fk").cloned().unwrap_or_else(|| "err".into()), cj: g("cj")?, slp: g("slp")?, vm: g("vm")?, vs: g("vs")? })
     })();
     let Some(c) = parsed else { return "crash=badcase:parse".into() };
     if c.n == 0 || c.kind > 4 || c.pull > 2 || !["err", "panic", "eof", "pipe", "reset", "inval"].contains(&c.fk.as_str()) { return "crash=badcase:range".into(); }
+    let special: Option<Box<dyn FnOnce(&Case) -> Result<String, String> + std::panic::UnwindSafe>> =
+        if f.get("park").map(|p| p == "1").unwrap_or(false) { let g = f.get("g").and_then(|s| ph(s)).unwrap_or(0) as usize; Some(Box::new(move |c: &Case| run_park(c, g))) }
+        else if let Some(mode) = f.get("early").and_then(|s| ph(s)) { Some(Box::new(move |c: &Case| run_early(c, mode))) }
+        else { None };
+    if let Some(run) = special {
+        return match guard(move || run(&c)) { Ok(Ok(o)) => o, Ok(Err(e)) => format!("crash={}", clean(e)), Err(()) => "crash=panic".into() };
+    }
     static HOOK: std::sync::Once = std::sync::Once::new();
     static LAST: Mutex<String> = Mutex::new(String::new());
     HOOK.call_once(|| std::panic::set_hook(Box::new(|i| { *LAST.lock().unwrap_or_else(|e| e.into_inner()) = i.to_string(); })));
@@ -573,6 +816,36 @@ fn gen_cases(seed: u64, thorough: bool) -> Vec<String> {
     for (len, n) in [(10u64, 1024u64), (0, 16), (16, 16), (1, 1)] {
         let i = lines.len();
         lines.push(format!("i={i} dup=1 data={} n={}", hex(&rng.bytes(len as usize)), hx(n)));
+    }
+    // several consumers, one connection each, pull different resources of one server at the same
+    // moment, round after round: (consumers, rounds, puller, n, depth, zstd, kind, payload length)
+    let rf = if thorough { 5 } else { 1 };
+    for (k, rounds, pull, n, d, z, kind, len) in [(4u64, 40u64, 0u64, 64u64, 2u64, false, 3u64, 200u64), (4, 40, 1, 64, 1, false, 4, 200), (4, 25, 2, 64, 2, false, 3, 150),
+                                                  (6, 40, 0, 4096, 2, true, 4, 6000), (3, 40, 1, 8, 0, false, 3, 20), (8, 30, 0, 1, 3, false, 4, 3), (5, 25, 2, 8, 1, true, 4, 100)] {
+        let i = lines.len();
+        lines.push(format!("i={i} conc={} rounds={} pull={pull} n={} d={} z={} kind={kind} el=0 len={} data={} w=- f=- slp=0",
+            hx(k), hx(rounds * rf), hx(n), hx(d), z as u8, hx(len), hex(&rng.bytes((k * len) as usize))));
+    }
+    // a cancel that arrives while an earlier `next` is parked on a producer waiting at a gate
+    // after g bytes: (n, depth, chunks, g)
+    for (n, d, chunks, g) in [(8u64, 1u64, 12u64, 8u64), (8, 1, 12, 0), (8, 2, 12, 4), (8, 1, 12, 16), (8, 0, 6, 16), (64, 0, 5, 64), (1, 2, 9, 3), (16, 3, 8, 40)] {
+        for pull in [0u64, 2] {
+            let i = lines.len();
+            let npre = (g / n).saturating_sub(1);
+            lines.push(format!("i={i} park=1 g={} kind=4 el=0 pull={pull} n={} d={} z=0 data={} w=- f=- fk=err cj={} slp=0 vm=0 vs=0",
+                hx(g), hx(n), hx(d), hex(&rng.bytes((n * chunks) as usize)), hx(npre + 1)));
+        }
+    }
+    // pullers whose decoder is done long before the stream ends: (mode, kind, el, n, depth, elements / bytes)
+    for (mode, kind, el, n, d, m) in [(1u64, 1u64, 1u64, 64u64, 2u64, 3200u64), (1, 1, 0, 16, 1, 1000), (1, 0, 0, 16, 0, 800), (1, 2, 0, 32, 2, 200), (1, 3, 0, 16, 2, 800),
+                                      (2, 3, 0, 16, 2, 1024), (2, 4, 0, 8, 1, 480), (2, 1, 1, 64, 3, 800), (2, 0, 0, 16, 1, 700), (3, 3, 0, 16, 0, 640), (3, 0, 0, 32, 2, 1500), (3, 4, 0, 8, 2, 333)] {
+        let vs = rng.range(1, 1 << 20);
+        let data = if kind <= 2 { value_bytes(kind, el, m as usize, vs) } else { rng.bytes(m as usize) };
+        for pull in [0u64, 1, 2] {
+            let i = lines.len();
+            lines.push(format!("i={i} early={mode} kind={kind} el={el} pull={pull} n={} d={} z=0 data={} w=- f=- fk=err cj=0 slp=0 vm={} vs={}",
+                hx(n), hx(d), hex(&data), hx(if kind <= 2 { m } else { 0 }), hx(if kind <= 2 { vs } else { 0 })));
+        }
     }
     lines
 }
